@@ -159,6 +159,10 @@ def coerce_variables(schema, operation, provided):
     return out
 
 
+class ArgError(Exception):
+    pass
+
+
 def coerce_args(arg_defs, node, variables):
     """arg_defs: mapping name -> GraphQLArgument; node: FieldNode / DirectiveNode."""
     given = {a.name.value: a.value for a in (node.arguments or ())}
@@ -170,12 +174,16 @@ def coerce_args(arg_defs, node, variables):
         if vnode is not UNSET and isinstance(vnode, VariableNode):
             vn = vnode.name.value
             if vn in variables:
+                if variables[vn] is None and is_non_null_type(t):
+                    raise ArgError(name)  # null for a non-null argument: field error
                 out[name] = variables[vn]
                 continue
             vnode = UNSET
         if vnode is UNSET:
             if has_default:
                 out[name] = coerce_literal(t, ad.ast_node.default_value, {})
+            elif is_non_null_type(t):
+                raise ArgError(name)
             continue
         out[name] = coerce_literal(t, vnode, variables)
     return out
@@ -229,6 +237,8 @@ class Model:
         self.args_at = {}
         self.order = []  # field positions in evaluation (document) order
         self.root_of = {}  # position -> index of root field (mutation seriality)
+        self.partial = {}  # list position whose source fails -> items completed before the failure
+        self.no_invoke = set()
         root_type = self.schema.get_root_type(op.operation)
         fields = self.collect(root_type, [op.selection_set])
         self._root_index = None
@@ -236,8 +246,11 @@ class Model:
             data = self.exec_selection(root_type, root_obj, (), fields, top=True)
         except Propagate:
             data = None
-        return ModelResult(data, self.E, self.pos_type, self.args_at, propagate,
-                           self.order, self.root_of, self.variables)
+        res = ModelResult(data, self.E, self.pos_type, self.args_at, propagate,
+                          self.order, self.root_of, self.variables)
+        res.partial = self.partial
+        res.no_invoke = self.no_invoke
+        return res
 
     # CollectFields with one visited set over the merged selection sets
     def collect(self, obj_type, selection_sets):
@@ -306,12 +319,17 @@ class Model:
         return result
 
     def exec_field(self, obj_type, obj, path, fdef, nodes):
-        args = coerce_args(fdef.args, nodes[0], self.variables)
+        t = fdef.type
+        self.root_of[path] = self._root_index
+        fp = self.planner.field(path, t)
+        try:
+            args = coerce_args(fdef.args, nodes[0], self.variables)
+        except ArgError:
+            # argument coercion fails: field error, resolver is never called
+            self.no_invoke.add(path)
+            return self.complete_position(t, FaultValue("args", None), path, nodes)
         self.args_at[path] = args
         self.order.append(path)
-        self.root_of[path] = self._root_index
-        t = fdef.type
-        fp = self.planner.field(path, t)
         fname = nodes[0].name.value
         if fp.fault in ("raise", "ret_exc"):
             value = FaultValue(fp.fault, fp.msg)
@@ -380,11 +398,14 @@ class Model:
         if lp.fail_after is not None:
             # items before the failure are still produced (and may be invoked) by the
             # real executor, but the whole list position fails
+            before = []
             for i in range(min(lp.fail_after, len(value))):
                 try:
-                    self._plan_item(item_t, value[i], path + (i,), nodes, evaluate=True)
+                    before.append(self._plan_item(item_t, value[i], path + (i,), nodes,
+                                                  evaluate=True))
                 except Propagate:
-                    pass
+                    before.append(None)
+            self.partial[path] = before
             raise Fail(ErrRec(path, "src", lp.msg))
         out = []
         pending = None
